@@ -142,7 +142,7 @@ func main() {
 	flag.Parse()
 	modelLen, shellLen := 5, 4
 	if vcommon.Thorough() {
-		shellLen = 5
+		modelLen, shellLen = 6, 5
 	}
 	var viols []vcommon.Violation
 	add := func(scen, msg, fp string) {
